@@ -114,6 +114,13 @@ def replace_typevars(ty: t.Any,
     if isinstance(ty, t.Sequence) and not isinstance(ty, (str, bytes)):
         return type(ty)(replace_typevars(t, replacements) for t in ty)  # type: ignore
 
+    bound_vars = getattr(ty, '__dict__', {}).get('__pane_boundvars__')
+    if bound_vars is not None and isinstance(ty, type):
+        # a subscripted pane dataclass (`Cls[T]`) is a class, not a typing alias: re-subscript its origin
+        old_args = tuple(bound_vars.values())
+        new_args = tuple(replace_typevars(arg, replacements) for arg in old_args)
+        return ty if new_args == old_args else ty.__origin__[new_args]  # type: ignore
+
     base = t.get_origin(ty) or ty
     args = t.get_args(ty)
 
